@@ -65,7 +65,7 @@ class JP_Abs(JumpInstruction):
 
         first, *rest = self.operands()
         assert len(rest) == 0, "Expected no extra operands"
-        if isinstance(first, ImmOperand):
+        if isinstance(first, ImmOperand) and not isinstance(first, Pointer):
             # absolute address
             assert first.value is not None, "Value not set"
             dest = first.value
@@ -75,6 +75,12 @@ class JP_Abs(JumpInstruction):
                 BranchType.TrueBranch if self._cond else BranchType.UnconditionalBranch
             )
             info.add_branch(branch_type, dest)
+        else:
+            # JP r3 / JP (n): the destination is a register or a pointer stored in internal
+            # memory ((n) is an IMem20, which also derives from Imm8 - its value is the
+            # offset n, not the destination).  Report a branch with an unknown target
+            # instead of none at all / the offset.
+            info.add_branch(BranchType.UnresolvedBranch)
 
 
 class JP_Rel(JumpInstruction):
